@@ -33,6 +33,10 @@ import (
 
 var w *bufio.Writer
 
+// number of runs that did not terminate within the timeout; their goroutines keep spinning, so the
+// harness stops generating after a few of them (a hang is a violation of C12 by itself)
+var hangs int
+
 type result struct {
 	kind string
 	pos  scanner.Position
@@ -78,6 +82,7 @@ func parseOnce(data []byte) result {
 	case r := <-ch:
 		return r
 	case <-time.After(2 * time.Second):
+		hangs++
 		return result{kind: "hang"}
 	}
 }
@@ -107,6 +112,10 @@ func emitCase(mode string, n int, text []byte, extra string, expected []dbc.Def,
 		fmt.Fprintf(w, "OUT err %x:%x:%x %s\n", r1.pos.Line, r1.pos.Column, r1.pos.Offset, same)
 	default:
 		fmt.Fprintf(w, "OUT %s %s\n", r1.kind, same)
+	}
+	if hangs >= 4 {
+		w.Flush()
+		os.Exit(0)
 	}
 }
 
@@ -366,7 +375,10 @@ func randomCase(g *gen, n int) (string, []byte) {
 		case 1:
 			return "ints", []byte(fmt.Sprintf("BO_ %s M: %s N\n SG_ S m%s : 0|1@%s+ (1,0) [0|1] \"\" X\n", a, b, b, neg+a))
 		case 2:
-			return "ints", []byte(fmt.Sprintf("BA_DEF_ \"e\" ENUM \"x\",\"y\";\nBA_DEF_DEF_ \"e\" %s;\nBA_ \"e\" %d;\n", a, r.Intn(4)))
+			nv := 1 + r.Intn(4)
+			vals := strings.TrimSuffix(strings.Repeat("\"x\",", nv), ",")
+			return "ints", []byte(fmt.Sprintf("BA_DEF_ \"e\" ENUM %s;\nBA_ \"e\" %d;\nBA_DEF_DEF_ \"e\" %d;\nBA_ \"e\" BO_ 1 %s;\n",
+				vals, nv-1+r.Intn(3), r.Intn(nv+2), a))
 		default:
 			return "ints", []byte(fmt.Sprintf("SIG_VALTYPE_ %s S : %s;\nEV_ E : %s [0|1] \"\" 0 %s DUMMY_NODE_VECTOR%d N;", a, b, b, a, r.Intn(5)))
 		}
